@@ -440,7 +440,6 @@ func c15Run(c *fw.Case, kind string) {
 	startWatcher := func(s kv, key string, replay, racing bool) *c15Watcher {
 		ctx, cancel := context.WithCancel(context.Background())
 		w := &c15Watcher{key: key, replay: replay, racing: racing, seen: map[string]uint64{}, cancel: cancel}
-		w.started = tick()
 		err := s.watch(ctx, key, replay, func(k string, v uint64) {
 			if w.abandon.Load() {
 				select {} // an abandoned consumer stops reading
@@ -454,6 +453,8 @@ func c15Run(c *fw.Case, kind string) {
 		if err != nil {
 			c.Inconclusive("watch: " + err.Error())
 		}
+		// a watcher without replay is entitled to what is written after Watch has returned
+		w.started = tick()
 		watchers = append(watchers, w)
 		return w
 	}
@@ -770,6 +771,130 @@ func c15V3Tx(c *fw.Case) {
 	c.Distinct("history_shape", "v3/transaction")
 }
 
+// c15SubscribeDuringWrites is the targeted witness of known finding KF-C15-1: watchers subscribe to the proposal
+// store (one Atomix event stream per watcher) while writers are updating records on every partition; a watcher
+// is entitled to every write that begins after its Watch call has returned. The attempt is repeated until one
+// watcher is found that has not been shown such a write 3 s after the writers stopped, or the attempts are used up.
+func c15SubscribeDuringWrites(c *fw.Case, attempts int) {
+	const kind = "v2/proposal"
+	for a := 0; a < attempts; a++ {
+		client := test.NewClient()
+		var keys []string
+		for i := 0; i < 6; i++ {
+			keys = append(keys, fmt.Sprintf("w%d-%d-%d", c.Index, a, i))
+		}
+		ws, err1 := c15Stores(kind, client, keys)
+		rs, err2 := c15Stores(kind, client, keys)
+		if err1 != nil || err2 != nil {
+			client.Close()
+			c.Inconclusive("stores could not be created")
+			return
+		}
+		ctx := context.Background()
+		var clock int64
+		tick := func() int64 { return atomic.AddInt64(&clock, 1) }
+		var mu sync.Mutex
+		finalVer := map[string]uint64{}
+		lastWriteCall := map[string]int64{}
+		var stop atomic.Bool
+		var wg sync.WaitGroup
+		for wi := 0; wi < 3; wi++ {
+			wg.Add(1)
+			go func(wi int) {
+				defer wg.Done()
+				mine := []string{keys[2*wi], keys[2*wi+1]}
+				last := map[string]*rec{}
+				tag := uint64(1000 * (wi + 1))
+				for !stop.Load() {
+					for _, k := range mine {
+						tag++
+						call := tick()
+						var rc *rec
+						var err error
+						if last[k] == nil {
+							rc, err = ws.create(ctx, k, tag)
+						} else {
+							rc, err = ws.update(ctx, last[k], tag, true)
+						}
+						if err != nil || rc == nil {
+							continue
+						}
+						last[k] = rc
+						mu.Lock()
+						finalVer[k] = rc.ver
+						lastWriteCall[k] = call
+						mu.Unlock()
+					}
+				}
+			}(wi)
+		}
+		time.Sleep(time.Duration(1+a%3) * time.Millisecond)
+		var watchers []*c15Watcher
+		var cancels []context.CancelFunc
+		for i := 0; i < 6; i++ {
+			wctx, cancel := context.WithCancel(ctx)
+			cancels = append(cancels, cancel)
+			w := &c15Watcher{racing: true, seen: map[string]uint64{}}
+			err := rs.watch(wctx, "", false, func(k string, v uint64) {
+				w.mu.Lock()
+				if v > w.seen[k] {
+					w.seen[k] = v
+				}
+				w.mu.Unlock()
+			})
+			if err != nil {
+				continue
+			}
+			w.started = tick()
+			watchers = append(watchers, w)
+		}
+		time.Sleep([]time.Duration{0, 200 * time.Microsecond, 500 * time.Microsecond, time.Millisecond}[a%4])
+		stop.Store(true)
+		wg.Wait()
+		c.Count("subscribe_during_writes_attempts", 1)
+		c.Count("subscribe_during_writes_watchers", int64(len(watchers)))
+		missing := func() string {
+			mu.Lock()
+			defer mu.Unlock()
+			for wi, w := range watchers {
+				for _, k := range keys {
+					if finalVer[k] == 0 || lastWriteCall[k] < w.started {
+						continue
+					}
+					w.mu.Lock()
+					got := w.seen[k]
+					w.mu.Unlock()
+					if got < finalVer[k] {
+						return fmt.Sprintf("attempt %d: watcher %d subscribed at logical time %d; the last write of %s began at %d and produced version %d; the watcher has been shown version %d", a, wi, w.started, k, lastWriteCall[k], finalVer[k], got)
+					}
+				}
+			}
+			return ""
+		}
+		deadline := time.Now().Add(3 * time.Second)
+		lastIter := time.Now()
+		m := missing()
+		for m != "" && time.Now().Before(deadline) {
+			time.Sleep(2 * time.Millisecond)
+			if time.Since(lastIter) > 250*time.Millisecond {
+				deadline = time.Now().Add(3 * time.Second) // the machine did not schedule us: start the wait again
+			}
+			lastIter = time.Now()
+			m = missing()
+		}
+		for _, cancel := range cancels {
+			cancel()
+		}
+		client.Close()
+		if m != "" {
+			c.Violate("watch", "store/"+kind+"/watcher-subscribed-during-writes-missed-events", m, nil)
+			break
+		}
+	}
+	c.Class("v2/proposal subscribe-during-writes")
+	c.Distinct("history_shape", "v2/proposal/subscribe-during-writes")
+}
+
 func init() {
 	kinds := []string{"v2/transaction", "v2/proposal", "v2/configuration", "v3/configuration"}
 	fw.Register(&fw.Check{ID: "C15", Level: "exploration", Race: true,
@@ -786,6 +911,10 @@ func init() {
 			return 70
 		},
 		Run: func(c *fw.Case) {
+			if c.Index == 0 {
+				c15SubscribeDuringWrites(c, 400)
+				return
+			}
 			if c.Index%7 == 6 {
 				c15V3Tx(c)
 				return
